@@ -53,6 +53,12 @@ ASSUME = [
     "through CRYPTO_set_mem_functions) may grow after establishment by at most one maximum frame on the wire (65539) + 4 KiB "
     "(XCM's own) / + 32 KiB (with OpenSSL's); during a garbage handshake the peak may exceed that of a good handshake by at "
     "most the same amount",
+    "bystander (every tls/btls case): a second healthy idle connection B of the same kind, same thread, established once per "
+    "forked batch before any case (outside the heap measurement) and re-established after a violation; after every case on "
+    "the hostile connection: one idle xcm_receive(B) must say EAGAIN, one valid message (btls: 7 bytes) from B's peer must be "
+    "delivered exactly, xcm_send on B must be accepted and arrive; the harness-side OpenSSL peers share the thread's OpenSSL "
+    "error queue with the library: every harness-side SSL call removes exactly the entries it added (ERR_set_mark/"
+    "ERR_pop_to_mark), judges results with SSL_want() and stops stepping its handshake once the XCM side has failed",
     "the TCP emulation of envshim (AF_UNIX stream sockets) with io_menu=0: recv returns what has been written so far, so the "
     "sender's segmentation is the fragmentation the receiver sees",
 ]
@@ -196,7 +202,7 @@ def _run(chk, tier, jobs, deadline, exe, canon):
     lock = threading.Lock()
     tot = dict(cases=0, calls=0, checked=0, msgs=0, bytes_fed=0, segments=0, crashes=0, skipped_chunks=0,
                out=dict(eproto=0, closed=0, eagain=0, other=0), max_growth_xcm=0, max_growth_all=0, max_peak_hs=0,
-               hs_peak_ref=0, identity_skipped=0, hs_xcm_ok=0)
+               hs_peak_ref=0, identity_skipped=0, hs_xcm_ok=0, bystander=0)
     samples = []
     sigcount = {}
     best = {}
@@ -250,6 +256,7 @@ def _run(chk, tier, jobs, deadline, exe, canon):
                     tot["segments"] += ln["segments"]
                     tot["identity_skipped"] += ln["identity_skipped"]
                     tot["hs_xcm_ok"] += ln["hs_xcm_ok"]
+                    tot["bystander"] += ln.get("bystander_checks", 0)
                     for k in ("eproto", "closed", "eagain", "other"):
                         tot["out"][k] += ln["out_" + k]
                     for k in ("max_growth_xcm", "max_growth_all", "max_peak_hs", "hs_peak_ref"):
@@ -298,7 +305,7 @@ def _run(chk, tier, jobs, deadline, exe, canon):
                 first_terminal_result=tot["out"], max_heap_growth_xcm_bytes=tot["max_growth_xcm"],
                 max_heap_growth_with_openssl_bytes=tot["max_growth_all"],
                 max_heap_peak_garbage_handshake_bytes=tot["max_peak_hs"], heap_peak_good_handshake_bytes=tot["hs_peak_ref"],
-                identity_mutations_skipped=tot["identity_skipped"], mutated_handshakes_accepted_by_xcm=tot["hs_xcm_ok"],
+                cases_with_bystander_check=tot["bystander"], identity_mutations_skipped=tot["identity_skipped"], mutated_handshakes_accepted_by_xcm=tot["hs_xcm_ok"],
                 configurations=len(per_cfg), configurations_dead_in_warm_up=len(warm_crashed),
                 chunks_skipped_by_deadline=tot["skipped_chunks"],
                 per_configuration=sorted(per_cfg.values(), key=lambda p: p["configuration"]),
